@@ -14,7 +14,9 @@ let parse_opts (s : string) : Mount.server_option list =
         Mount.OMux (Some (Stdlib.List.map bytes_of_hex (String.split_on_char ',' (String.sub o 2 (n - 2)))))
       else if n >= 2 && String.sub o 0 2 = "h:" then Mount.OHandler (bytes_of_hex (String.sub o 2 (n - 2)), false)
       else if n >= 2 && String.sub o 0 2 = "x:" then Mount.OHandler (bytes_of_hex (String.sub o 2 (n - 2)), true)
-      else failwith ("bad option " ^ o)) (String.split_on_char '+' s)
+      else failwith ("bad option " ^ o))
+    (* "L" (always last) is not an option: the services are registered after NewServer *)
+    (Stdlib.List.filter (fun o -> o <> "L") (String.split_on_char '+' s))
 
 let rec drop n l = if n <= 0 then l else match l with [] -> [] | _ :: t -> drop (n - 1) t
 
